@@ -53,6 +53,16 @@ def bounded(tier, seed):
                 bad = VC.stamp_consistent(iso, zn)
                 if bad and len(failures) < 15:
                     failures.append({'id': 'C06/zone-history', 'what': bad, 'input': {'kind': 'zone_history', 'offset': str(hist[0].utcoffset())}})
+    # a list of ONE grid and the empty list are JSON arrays too
+    for n in (0, 1, 2):
+        cases += 1
+        gl = [g for _, g in list(VC.grids('quick', seed))[:n]]
+        try:
+            arr = json.loads(hszinc.dump(gl, mode=hszinc.MODE_JSON))
+            if not isinstance(arr, list) or len(arr) != n:
+                failures.append({'id': 'C06/array', 'what': 'a list of %d grid(s) is written as %s, not as a JSON array of %d' % (n, type(arr).__name__, n), 'input': {'kind': 'array'}})
+        except Exception as e:
+            failures.append({'id': 'C06/array', 'what': 'dump of a list of %d grids failed: %r' % (n, e), 'input': {'kind': 'array'}})
     # list of grids -> JSON array
     gs = [g for _, g in list(VC.grids('quick', seed))[:3]]
     cases += 1
@@ -75,6 +85,10 @@ def replay(inp):
         fl = [f for f in r['failures'] if f['id'].endswith('/zone-history')]
         return {'reproduced': bool(fl), 'detail': [f['what'] for f in fl[:3]]}
     import hszinc
+    if inp.get('kind') in ('array', 'framing'):
+        r = bounded('quick', 0)
+        fl = [f for f in r['failures'] if f['id'] == 'C06/array']
+        return {'reproduced': bool(fl), 'detail': [f['what'] for f in fl[:3]]}
     if inp.get('kind') == 'catalogue':
         for label, g in VC.grids(inp.get('tier', 'quick'), inp.get('seed', 0)):
             if label == inp['label']:
